@@ -8,6 +8,7 @@ import Miden.Model.Mast
 import Miden.Model.Options
 import Miden.Spec.Parse
 import Miden.Model.Air
+import Miden.Model.Honest
 import Miden.Generated.ProvingOpts
 import Miden.Model.Serde
 import Miden.Model.Lookup
@@ -203,6 +204,27 @@ def handle (line : String) : String :=
         b0 := g 24, b1 := g 25, h0 := g 26 }
     let cs := Air.stackConstraints (mk (parseNats cur)) (mk (parseNats nxt))
     s!"cs {joinNats (cs.map (·.v))}"
+  | ["hrow", tok, clk, fmp, b0, st] =>
+    -- honest row of a real trace: helper registers, depth helper column and the next row's stack
+    -- cells as the model defines them (`Model/Honest.lean`; subject of `Props/C03Air.lean`)
+    match Op.ofToken tok with
+    | none => "bad-request"
+    | some op =>
+      let top := parseNats st
+      let depth := b0.toNat?.getD 16
+      let vm : Vm := { stack := top ++ List.replicate (depth - 16) 0, clk := clk.toNat?.getD 0,
+                       fmp := fmp.toNat?.getD 0 }
+      let hl := helpersOf op top
+      let nxt := match vm.step op with
+        | .ok v =>
+          -- the cell entering position 15 on a left shift below depth 16 comes from the overflow
+          -- table, which the request does not carry
+          let masked := (Vm.isLeftB op && depth > 16)
+          let cells := (v.stack.take 16).mapIdx fun i x =>
+            if masked && i == 15 then "-" else toString x
+          s!"{",".intercalate cells} {v.stack.length} {v.fmp}"
+        | .error _ => "-"
+      s!"hlp {joinNats hl} h0 {Air.h0Of depth} next {nxt}"
   | ["enc", "stackinputs", vals] =>
     s!"bytes {toHex (Serde.encodeStackInputs (if vals == "-" then [] else parseNats vals))}"
   | ["enc", "stackoutputs", st, ad] =>
